@@ -2,6 +2,8 @@
 """Translator (fail-closed) for the pure decision logic of pysomeip: reads the SOURCE TEXT of
   config.Service.matches_offer / matches_find / matches_subscribe / matches_service
   sd._SessionStorage.check_received / assign_outgoing
+  sd.ServiceDiscoveryProtocol.sd_message_received (the per-entry dispatch), sd.ServiceDiscover.handle_offer / is_watching_service
+  (control-flow SKELETONS: which component method is called, directly or through call_soon, under which condition)
 with Python's ast module and emits theories/Generated/LogicGen.v: Gallina definitions gen_* that follow the Python
 statement by statement.  Proofs/GenEquiv.v proves gen_* equal to the hand-written model functions, so a change of these
 functions' logic breaks a proof obligation of C19 / C07 / C08 (a harmless rewrite may break it too).
@@ -14,6 +16,10 @@ Supported Python (anything else aborts the generation, exit 2):
                    finally: self.incoming[k] = (..)
   assign_outgoing: with self.outgoing_lock: x, y = self.outgoing[remote]; if <cond>: self.outgoing[remote] = (..) else: ...; return x, y
                    (+ the defaultdict default read from __init__)
+  skeletons      : statements `if/elif/else`, `continue`, bare `return`, logging calls (ignored), `self.<component>.<method>(args)`,
+                   `asyncio.get_event_loop().call_soon(self.<component>.<method>, args)`; callee and argument names must be in
+                   the table SKEL_CALLS; conditions as above plus entry.ttl, `multicast`, `sdhdr.flag_unicast`,
+                   `self.is_watching_service(entry)` (a boolean parameter of the generated skeleton)
 Usage: gen_logic.py <out.v>
 """
 import ast
@@ -30,7 +36,7 @@ class Abort(Exception):
 
 
 SERVICE_ATTR = {"service_id": "s_sid", "instance_id": "s_iid", "major_version": "s_maj", "minor_version": "s_min"}
-ENTRY_ATTR = {"sd_type": "e_type {v}", "service_id": "e_sid {v}", "instance_id": "e_iid {v}", "major_version": "e_maj {v}",
+ENTRY_ATTR = {"ttl": "e_ttl {v}", "sd_type": "e_type {v}", "service_id": "e_sid {v}", "instance_id": "e_iid {v}", "major_version": "e_maj {v}",
               # properties of SOMEIPSDEntry (header.py): the raw field behind them, valid after the type guard that precedes every use
               "service_minor_version": "e_val {v}", "eventgroup_id": "N.land (e_val {v}) 65535"}
 
@@ -44,7 +50,7 @@ class Expr:
             op = " && " if isinstance(n.op, ast.And) else " || "
             return "(" + op.join(self.tr(v) for v in n.values) + ")"
         if isinstance(n, ast.UnaryOp) and isinstance(n.op, ast.Not):
-            return "negb " + self.tr(n.operand)
+            return "(negb " + self.tr(n.operand) + ")"
         if isinstance(n, ast.Compare):
             if len(n.ops) != 1:
                 raise Abort("chained comparison")
@@ -60,6 +66,14 @@ class Expr:
             return "true" if n.value else "false"
         if isinstance(n, ast.Name) and self.env.get(n.id, ("",))[0] == "bool":
             return self.env[n.id][1]
+        if isinstance(n, ast.Attribute) and isinstance(n.value, ast.Name) and (n.value.id, n.attr) in self.env.get("__battr__", {}):
+            return self.env["__battr__"][(n.value.id, n.attr)]
+        if (isinstance(n, ast.Call) and isinstance(n.func, ast.Attribute) and getattr(n.func.value, "id", "") == "self"
+                and n.func.attr in self.env.get("__bcall__", {}) and not n.keywords):
+            args, term = self.env["__bcall__"][n.func.attr]
+            if [getattr(a, "id", None) for a in n.args] != args:
+                raise Abort("unexpected arguments of self." + n.func.attr)
+            return term
         raise Abort("unsupported boolean expression: " + ast.dump(n)[:120])
 
     def bad(self, op):
@@ -251,12 +265,126 @@ def gen_assign_outgoing(sd):
         "  ((flag, id), mkSess (incoming s) (aset dest_eqb d nxt (outgoing s))).\n"]
 
 
+# ---- control-flow skeletons ----
+# callee (dotted path below self) -> (constructor of gfun, expected argument names)
+SKEL_CALLS = {
+    "discovery.handle_offer": ("F_discovery_handle_offer", ["entry", "addr"]),
+    "announcer.handle_findservice": ("F_announcer_handle_findservice", ["entry", "addr", "multicast"]),
+    "announcer.handle_subscribe": ("F_announcer_handle_subscribe", ["entry", "addr"]),
+    "service_offer_stopped": ("F_service_offer_stopped", ["addr", "entry"]),
+    "service_offered": ("F_service_offered", ["addr", "entry"]),
+}
+
+
+def dotted(n):
+    parts = []
+    while isinstance(n, ast.Attribute):
+        parts.append(n.attr)
+        n = n.value
+    if isinstance(n, ast.Name):
+        parts.append(n.id)
+        return ".".join(reversed(parts))
+    return None
+
+
+def skel_call(call):
+    """-> None for a logging call, else the Gallina action"""
+    name = dotted(call.func)
+    if name and (name.startswith("LOG.") or name.startswith("self.log.")):
+        return None
+    if call.keywords:
+        raise Abort("keyword arguments in a skeleton call")
+    soon = False
+    args = list(call.args)
+    if (isinstance(call.func, ast.Attribute) and call.func.attr == "call_soon" and isinstance(call.func.value, ast.Call)
+            and dotted(call.func.value.func) == "asyncio.get_event_loop" and args):
+        soon = True
+        name, args = dotted(args[0]), args[1:]
+    if not name or not name.startswith("self."):
+        raise Abort("unsupported call in a skeleton: " + str(name))
+    key = name[len("self."):]
+    if key not in SKEL_CALLS:
+        raise Abort("unknown callee in a skeleton: " + key)
+    ctor, expect = SKEL_CALLS[key]
+    if [getattr(a, "id", None) for a in args] != expect:
+        raise Abort("unexpected arguments for " + key)
+    return ("GSoon " if soon else "GCall ") + ctor
+
+
+def skel(stmts, ex):
+    """statement list -> (Gallina term : list gact, every path ends the enclosing body)"""
+    if not stmts:
+        return "[]", False
+    st, rest = stmts[0], stmts[1:]
+    if isinstance(st, ast.Continue) or (isinstance(st, ast.Return) and st.value is None):
+        return "[]", True
+    if isinstance(st, ast.Expr) and isinstance(st.value, ast.Constant):
+        return skel(rest, ex)
+    if isinstance(st, ast.Expr) and isinstance(st.value, ast.Call):
+        act = skel_call(st.value)
+        r, t = skel(rest, ex)
+        return (r if act is None else f"({act} :: {r})"), t
+    if isinstance(st, ast.If):
+        c = ex.tr(st.test)
+        b, bt = skel(st.body, ex)
+        o, ot = skel(st.orelse, ex)
+        r, rt = skel(rest, ex)
+        then_t = b if bt else (r if b == "[]" else f"({b} ++ {r})")
+        else_t = o if ot else (r if o == "[]" else f"({o} ++ {r})")
+        return f"(if {c} then {then_t} else {else_t})", (bt or rt) and (ot or rt)
+    raise Abort("unsupported statement in a skeleton: " + type(st).__name__)
+
+
+def gen_skeletons(sd):
+    out = []
+    # ServiceDiscoveryProtocol.sd_message_received: [logging], if <reject>: [logging]; return, for entry in sdhdr.entries: <dispatch>
+    f = fn_ast(sd.ServiceDiscoveryProtocol.sd_message_received)
+    if [a.arg for a in f.args.args] != ["self", "sdhdr", "addr", "multicast"]:
+        raise Abort("sd_message_received: unexpected parameters")
+    b = [s for s in body_of(f) if not (isinstance(s, ast.Expr) and isinstance(s.value, ast.Call) and skel_call(s.value) is None)]
+    if (len(b) != 2 or not isinstance(b[0], ast.If) or b[0].orelse or not isinstance(b[1], ast.For) or b[1].orelse
+            or getattr(b[1].target, "id", "") != "entry" or dotted(b[1].iter) != "sdhdr.entries"):
+        raise Abort("sd_message_received: expected a guard followed by 'for entry in sdhdr.entries'")
+    ex = Expr({"entry": ("entry", "e"), "multicast": ("bool", "mc"), "__battr__": {("sdhdr", "flag_unicast"): "unicast"}})
+    g, gt = skel(b[0].body, ex)
+    if g != "[]" or not gt:
+        raise Abort("sd_message_received: the guard must only log and return")
+    out.append(f"Definition gen_sd_accept (unicast : bool) : bool :=\n  negb {ex.tr(b[0].test)}.\n")
+    d, _ = skel(b[1].body, ex)
+    out.append(f"Definition gen_dispatch_entry (e : sdentry) (mc : bool) : list gact :=\n  {d}.\n")
+    # ServiceDiscover.handle_offer
+    f = fn_ast(sd.ServiceDiscover.handle_offer)
+    if [a.arg for a in f.args.args] != ["self", "entry", "addr"]:
+        raise Abort("handle_offer: unexpected parameters")
+    ex = Expr({"entry": ("entry", "e"), "__bcall__": {"is_watching_service": (["entry"], "watching")}})
+    d, _ = skel(body_of(f), ex)
+    out.append(f"Definition gen_handle_offer (e : sdentry) (watching : bool) : list gact :=\n  {d}.\n")
+    # ServiceDiscover.is_watching_service: if self.watcher_all_services: return True; return any(s.matches_offer(entry) for s in self.watched_services.keys())
+    f = fn_ast(sd.ServiceDiscover.is_watching_service)
+    b = body_of(f)
+    ok = (len(b) == 2 and isinstance(b[0], ast.If) and not b[0].orelse and dotted(b[0].test) == "self.watcher_all_services"
+          and len(b[0].body) == 1 and isinstance(b[0].body[0], ast.Return) and getattr(b[0].body[0].value, "value", None) is True
+          and isinstance(b[1], ast.Return) and isinstance(b[1].value, ast.Call) and getattr(b[1].value.func, "id", "") == "any"
+          and len(b[1].value.args) == 1 and isinstance(b[1].value.args[0], ast.GeneratorExp))
+    if ok:
+        ge = b[1].value.args[0]
+        c = ge.generators
+        ok = (len(c) == 1 and not c[0].ifs and getattr(c[0].target, "id", "") == "s" and isinstance(c[0].iter, ast.Call)
+              and dotted(c[0].iter.func) == "self.watched_services.keys" and isinstance(ge.elt, ast.Call)
+              and dotted(ge.elt.func) == "s.matches_offer" and [getattr(a, "id", None) for a in ge.elt.args] == ["entry"])
+    if not ok:
+        raise Abort("is_watching_service: unexpected shape")
+    out.append("Definition gen_is_watching (all_nonempty any_filter_matches : bool) : bool :=\n"
+               "  if all_nonempty then true else any_filter_matches.\n")
+    return out
+
+
 def main():
     out_path = sys.argv[1]
     try:
         import someip.config as cfg
         import someip.sd as sd
-        parts = gen_matchers(cfg) + gen_check_received(sd) + gen_assign_outgoing(sd)
+        parts = gen_matchers(cfg) + gen_check_received(sd) + gen_assign_outgoing(sd) + gen_skeletons(sd)
     except Abort as exc:
         print("gen_logic: ABORT:", exc)
         return 2
@@ -264,7 +392,7 @@ def main():
         print("gen_logic: ABORT (unexpected):", repr(exc)[:300])
         return 2
     text = ("(* GENERATED by harness/gen_logic.py from the source text of /repo/src/someip/config.py and sd.py. DO NOT EDIT. *)\n"
-            "From PS Require Import Lib.Base Generated.Consts Model.SdTypes Model.Config Model.Session.\n\n" + "\n".join(parts))
+            "From PS Require Import Lib.Base Generated.Consts Model.SdTypes Model.Config Model.Session Model.Skel.\n\n" + "\n".join(parts))
     old = open(out_path).read() if os.path.exists(out_path) else None
     if old != text:
         with open(out_path, "w") as f:
